@@ -3,8 +3,10 @@
 # usage: tools/confirm_seeded.sh [id ...]     (default: every /verif/seeded/<id>/)   -> writes seeded/CONFIRM.txt
 cd /verif
 [ -z "$(git -C /repo status --porcelain)" ] || { echo "/repo working tree is not clean"; exit 2; }
-ids="$@"; [ -n "$ids" ] || ids=$(ls seeded | grep -v '\.' )
-: > seeded/CONFIRM.txt
+ids="$@"
+if [ -n "$ids" ]; then echo "--- $(date -u +%Y-%m-%dT%H:%MZ) appended run for: $ids (evidence written elsewhere: PYVC_EVIDENCE_DIR)" >> seeded/CONFIRM.txt
+else ids=$(ls seeded | grep -v '\.' ); : > seeded/CONFIRM.txt; fi
+export PYVC_EVIDENCE_DIR=/tmp/pyvc-confirm-evidence
 for id in $ids; do
   prop=$(python3 -c "import json;print(json.load(open('seeded/$id/meta.json'))['property'])")
   cmd=$(python3 -c "import json;print([c['quick_cmd'] for c in json.load(open('MANIFEST.json'))['checks'] if c['property_id']=='$prop'][0])")
@@ -15,4 +17,5 @@ for id in $ids; do
   echo "$id property=$prop exit=$rc violation_lines=$n first: $(echo "$out" | grep "^VIOLATION" | head -1 | cut -c1-160)" >> seeded/CONFIRM.txt
 done
 [ -z "$(git -C /repo status --porcelain)" ] && echo "repo clean again" >> seeded/CONFIRM.txt
-cat seeded/CONFIRM.txt
+rm -rf /tmp/pyvc-confirm-evidence
+tail -n 60 seeded/CONFIRM.txt
